@@ -144,7 +144,7 @@ Definition run_objs (s l : list wv) (fs : list wv) (g : list wv) : wv :=
   | Some s', Some l', Some fs', Some g' =>
       let p := mkDProg s' l' fs' g' in
       let '(rs, rl, rf) := resolve p in
-      let names := top_lcd_names s' in
+      let names := rev (top_lcd_names s') in
       wok [ WL (map wtext (lib_globals p));
             WL (map wtext (lib_init p));
             enc_recvs rs; enc_recvs rl; WL (map enc_recvs rf);
